@@ -199,6 +199,15 @@ def check_immediates_kept(model, col, rule):
         col.ok(rule, f"{WA}::Instruction keeps its immediates", "not decided: WriteTo does not iterate one field of the instruction")
         return
     field = "self." + loops[0].iter.attr
+    # what is written for an immediate is the immediate: the loop variable reaches the packer as it is (not clamped, masked
+    # or otherwise re-bound on the way)
+    lv_ = loops[0].target.id if isinstance(loops[0].target, ast.Name) else None
+    reb_ = [n for s_ in loops[0].body for n in ast.walk(s_) if isinstance(n, (ast.Assign, ast.AugAssign)) and any(isinstance(t, ast.Name) and t.id == lv_ for t in (n.targets if isinstance(n, ast.Assign) else [n.target]))]
+    wr_ = [c for s_ in loops[0].body for c in ast.walk(s_) if isinstance(c, ast.Call) and last_attr(c) in ("WriteInteger", "WriteSignedInteger", "PackInteger", "PackSignedInteger")]
+    passed_ = all(any(isinstance(a, ast.Name) and a.id == lv_ for a in c.args) for c in wr_)
+    col.check(lv_ is not None and not reb_ and bool(wr_) and passed_, rule, f"{WA}::Instruction.WriteTo writes each immediate as it is", f"`{lv_}` is handed to the packer unchanged",
+              (f"`{' '.join(unparse(reb_[0]).split())[:70]}` changes the immediate before it is written" if reb_ else "the packer is not given the loop variable") +
+              ": the constant in the module is not the constant of the program (the VM computes with the original)", WA, reb_[0] if reb_ else wt)
     sites, seen = [], set()
     for rel, fi in model.files.items():
         if not rel.startswith("nsl/"):
@@ -449,6 +458,64 @@ def check_encoder_shape(model, col, R):
     sname = pi.args.args[1].arg if len(pi.args.args) > 1 else None
     samples = [(x, False) for x in (0, 1, 63, 64, 127, 128, 2**31 - 1, 2**31, 2**32 - 1)] + [(x, True) for x in (-2**31, -2**31 + 1, -129, -128, -65, -64, -1, 0, 63, 64, 2**31 - 1)] \
         + [(x, False) for x in (-1, -64, -65, -2**31)]
+    def _leb(val, sg):
+        out = bytearray()
+        if sg or val < 0:
+            while True:
+                b = val & 0x7F
+                val >>= 7
+                if (val == 0 and not b & 0x40) or (val == -1 and b & 0x40):
+                    out.append(b)
+                    return bytes(out)
+                out.append(b | 0x80)
+        while True:
+            b = val & 0x7F
+            val >>= 7
+            if val == 0:
+                out.append(b)
+                return bytes(out)
+            out.append(b | 0x80)
+
+    # a result returned before either loop runs (a fast path, the zero case) is the LEB128 encoding of the value for the
+    # signedness asked for: folded over the boundary samples for which the path's conditions are decidable
+    short_bad = []
+    n_short = 0
+    for evs, status in paths(pi.body):
+        if status != "return" or any(e.kind not in ("stmt", "cond", "return") for e in evs):
+            continue
+        ret = evs[-1].node
+        if not isinstance(ret, ast.Return) or ret.value is None:
+            continue
+        n_short += 1
+        for val, sg in samples:
+            env = {vname0: val}
+            if sname:
+                env[sname] = sg
+            taken = True
+            for e in evs[:-1]:
+                try:
+                    if e.kind == "stmt" and isinstance(e.node, ast.Assign) and len(e.node.targets) == 1 and isinstance(e.node.targets[0], ast.Name):
+                        env[e.node.targets[0].id] = ev(e.node.value, env)
+                    elif e.kind == "cond" and bool(ev(e.node, env)) != bool(e.val):
+                        taken = False
+                        break
+                    elif e.kind == "stmt" and not isinstance(e.node, (ast.Assign, ast.Expr, ast.Pass)):
+                        taken = False
+                        break
+                except CannotEval:
+                    taken = False
+                    break
+            if not taken:
+                continue
+            try:
+                got = ev(ret.value, env)
+            except CannotEval:
+                continue
+            if isinstance(got, (bytes, bytearray)) and bytes(got) != _leb(val, sg):
+                short_bad.append((val, sg, bytes(got).hex(), _leb(val, sg).hex(), ret))
+    col.check(not short_bad, R, f"{WA}::PackInteger results returned without a loop", f"{n_short} early result path(s) agree with the encoding on the boundary samples",
+              (f"PackInteger({short_bad[0][0]}, signed={short_bad[0][1]}) returns {short_bad[0][2]} on an early path; the encoding is {short_bad[0][3]}" if short_bad else "")
+              + ": a single byte with bit 6 set is a negative number to a signed decoder (and a continuation to none)", WA, short_bad[0][4] if short_bad else pi)
     for evs, status in paths(pi.body):
         if status != "raise" and not any(e.kind == "stmt" and isinstance(e.node, ast.Assert) for e in evs):
             continue
